@@ -285,12 +285,17 @@ def iter_source(b, L):
     return '?'
 
 
+def _sites(F, b, path):
+    """Blocks of b at which `path` is called: directly, or in a closure handed to an iterator consumer called there."""
+    return op_sites(F, b, lambda p, t: p == path)
+
+
 def order(F, R):
     mb = F.body(MIXER + '::process')
     if R.check(mb is not None, 'B.C02.order-mixer', 'anchor', 'Mixer::process not found'):
-        a = blocks_of(calls_to(mb, TRACK + '::process', suffix=False))
-        s = blocks_of(calls_to(mb, SEND + '::process', suffix=False))
-        m = blocks_of(calls_to(mb, MAIN + '::process', suffix=False))
+        a = _sites(F, mb, TRACK + '::process')
+        s = _sites(F, mb, SEND + '::process')
+        m = _sites(F, mb, MAIN + '::process')
         ok = bool(a) and bool(s) and len(m) == 1 and order_ok(mb, a, s) and order_ok(mb, s, m) and order_ok(mb, a, m) \
             and not mb.in_loop(m[0]) and all(mb.dominates(m[0], r) for r in mb.return_blocks())
         R.check(ok, 'B.C02.order-mixer', 'Mixer::process',
@@ -300,12 +305,12 @@ def order(F, R):
     if R.check(tb is not None, 'B.C02.order-track', 'anchor:Track', 'Track::process not found'):
         ev = [
             ('gate', blocks_of(calls_to(tb, 'sound::PlaybackState::is_advancing'))),
-            ('children', blocks_of(calls_to(tb, TRACK + '::process', suffix=False))),
-            ('sounds', blocks_of(calls_to(tb, 'sound::Sound::process', suffix=False))),
-            ('effects', blocks_of(calls_to(tb, 'effect::Effect::process', suffix=False))),
-            ('spatialize', blocks_of(calls_to(tb, 'track::sub::SpatialData::spatialize', suffix=False))),
+            ('children', _sites(F, tb, TRACK + '::process')),
+            ('sounds', _sites(F, tb, 'sound::Sound::process')),
+            ('effects', _sites(F, tb, 'effect::Effect::process')),
+            ('spatialize', _sites(F, tb, 'track::sub::SpatialData::spatialize')),
             ('fader', op_sites(F, tb, frame_op('mul_assign'))),
-            ('sends', blocks_of(calls_to(tb, SEND + '::add_input', suffix=False))),
+            ('sends', _sites(F, tb, SEND + '::add_input')),
         ]
         ok = True
         why = ''
@@ -331,7 +336,7 @@ def order(F, R):
         if not R.check(b is not None, 'B.C02.order-track', 'anchor:' + owner, 'not found'):
             continue
         inp = op_sites(F, b, frame_op('add_assign'))
-        eff = blocks_of(calls_to(b, 'effect::Effect::process', suffix=False))
+        eff = _sites(F, b, 'effect::Effect::process')
         vol = op_sites(F, b, frame_op('mul_assign'))
         ok = bool(inp) and bool(eff) and bool(vol) and order_ok(b, inp, eff) and order_ok(b, eff, vol)
         R.check(ok, 'B.C02.order-track', owner.split('::')[-1] + '::process',
